@@ -238,6 +238,10 @@ fn run_op(line: &str) -> Option<(String, String)> {
                     })
                 }
                 ["srv", kind, fields @ ..] => srv_op(kind, fields),
+                ["sync", kind, slave, opts @ ..] => crate::net::sync_op(kind, slave, opts, &parts[1..]),
+                ["conc", kind] => crate::net::conc_op(kind, &parts[1..]),
+                ["accept", kind, setups] => crate::net::accept_op(kind, setups, false),
+                ["accept", kind, setups, "abort"] => crate::net::accept_op(kind, setups, true),
                 _ => None,
             }
         }
